@@ -3,6 +3,8 @@
 //!   harness life  <seed> <ncases>     -- C09 C10 C11
 #[path = "../interpose.rs"]
 mod interpose;
+#[path = "../comm.rs"]
+mod comm;
 #[path = "../life.rs"]
 mod life;
 #[path = "../proto.rs"]
@@ -15,6 +17,7 @@ fn main() {
     let n: usize = args.get(3).and_then(|s| s.parse().ok()).unwrap_or(100);
     match mode {
         "life" => life::run(seed, n, args.get(4).map(|s| s.as_str())),
+        "comm" | "commbig" => comm::run(seed, n, args.get(4).and_then(|s| s.parse().ok()), mode == "commbig"),
         _ => {
             eprintln!("usage: harness life <seed> <ncases> [replay-spec]");
             std::process::exit(2);
